@@ -304,6 +304,46 @@ def _always_jumps(stmts):
     return False
 
 
+def _jump_condition(stmts):
+    """condition (expression AST) under which a block of plain statements and side-effect free if-chains jumps away (continue / break / return /
+    raise); True / False when it always / never does; None when the block is too complex to say (loops, try, assignments before a nested jump
+    that the tests might read)"""
+    assigned = set()
+    for k, s in enumerate(stmts):
+        if isinstance(s, (ast.Continue, ast.Break, ast.Return, ast.Raise)):
+            return True
+        if isinstance(s, ast.If):
+            if names_in(s.test) & assigned:
+                return None
+            b, o = _jump_condition(s.body), _jump_condition(s.orelse)
+            rest = _jump_condition(stmts[k + 1:])
+            if b is None or o is None or rest is None:
+                return None
+            if b is False and o is False:
+                continue
+            if rest is not False:
+                return None         # a later jump combined with a partial one: not expressed
+            parts = []
+            if b is True:
+                parts.append(s.test)
+            elif b is not False:
+                parts.append(ast.BoolOp(op=ast.And(), values=[s.test, b]))
+            nt = ast.UnaryOp(op=ast.Not(), operand=s.test)
+            if o is True:
+                parts.append(nt)
+            elif o is not False:
+                parts.append(ast.BoolOp(op=ast.And(), values=[nt, o]))
+            e = parts[0] if len(parts) == 1 else ast.BoolOp(op=ast.Or(), values=parts)
+            return ast.fix_missing_locations(ast.copy_location(e, s))
+        if isinstance(s, (ast.For, ast.While, ast.Try, ast.With)):
+            if any(isinstance(x, (ast.Continue, ast.Break, ast.Return, ast.Raise)) for x in ast.walk(s)):
+                return None
+            continue
+        if isinstance(s, (ast.Assign, ast.AugAssign)):
+            assigned |= {n.id for n in ast.walk(s) if isinstance(n, ast.Name) and isinstance(n.ctx, ast.Store)}
+    return False
+
+
 def _contains(s, target):
     return s is target or any(x is target for x in ast.walk(s))
 
@@ -322,6 +362,11 @@ def reach_conds(stmts, target):
                     conds.append((p.test, False))
                 elif p.orelse and _always_jumps(p.orelse) and not _always_jumps(p.body):
                     conds.append((p.test, True))
+                else:
+                    # a guard nested one or more levels down (`if a: if b: continue`): the target is reached when NOT (a and b)
+                    jc = _jump_condition([p])
+                    if jc is not None and jc is not False and jc is not True:
+                        conds.append((jc, False))
         if s is target:
             return conds
         if isinstance(s, ast.If):
@@ -819,3 +864,9 @@ def string_transform_chain(ix, relpath, fdef, expr, _depth=0):
 
 def inner_ops_outer_first(inner_first):
     return list(reversed(inner_first))
+
+
+def unevaluated_returns(outs):
+    """outcomes of a decision procedure whose returned value could not be evaluated on the abstract case (it is reported by its source text):
+    the procedure is then not decided - never "differs from the specification" """
+    return [v for k, v in outs if k == 'return' and isinstance(v, str)]
